@@ -389,6 +389,9 @@ func runC19(p *core.Prog, r *core.Result) {
 									nonEmpty = true
 								}
 							}
+							if !plainOnly && allRunesPlain(p, h, hp, hr, plain) {
+								plainOnly = true
+							}
 							if !plainOnly {
 								okAll = false
 							}
@@ -491,4 +494,69 @@ func emptyTest(cond ssa.Value, val bool, name ssa.Value) bool {
 		}
 	}
 	return false
+}
+
+// allRunesPlain: the return ret of helper h is reached only after a `for _, r := range key` loop over the parameter has
+// run to completion, and every iteration that continues has passed plain(r) == true (an iteration that fails the test
+// leaves the loop another way).
+func allRunesPlain(p *core.Prog, h *ssa.Function, key *ssa.Parameter, ret *ssa.Return, plain *ssa.Function) bool {
+	ok := false
+	core.Instrs(h, func(in ssa.Instruction) {
+		nx, isNext := in.(*ssa.Next)
+		if !isNext {
+			return
+		}
+		rg, isRange := nx.Iter.(*ssa.Range)
+		if !isRange || rg.X != ssa.Value(key) {
+			return
+		}
+		hdr := nx.Block()
+		var okV, runeV ssa.Value
+		for _, ref := range *nx.Referrers() {
+			if e, isE := ref.(*ssa.Extract); isE {
+				switch e.Index {
+				case 0:
+					okV = e
+				case 2:
+					runeV = e
+				}
+			}
+		}
+		if okV == nil || runeV == nil {
+			return
+		}
+		// the return is on the loop-finished edge
+		done := p.FactsAt(ret).Find(func(c ssa.Value, v bool) bool { return c == okV && !v })
+		if !done {
+			return
+		}
+		// every back edge carries plain(r) == true
+		all, any := true, false
+		for _, q := range hdr.Preds {
+			if !hdr.Dominates(q) {
+				continue
+			}
+			any = true
+			si := 0
+			for k, sc := range q.Succs {
+				if sc == hdr {
+					si = k
+				}
+			}
+			passed := p.EdgeFacts(q, si).Find(func(c ssa.Value, v bool) bool {
+				call, isCall := c.(*ssa.Call)
+				if !isCall || core.Callee(call) != plain || !v || len(call.Call.Args) != 1 {
+					return false
+				}
+				return core.DependsOn(call.Call.Args[0], core.SliceOpts{}, func(x ssa.Value) bool { return x == runeV })
+			})
+			if !passed {
+				all = false
+			}
+		}
+		if any && all {
+			ok = true
+		}
+	})
+	return ok
 }
